@@ -73,7 +73,7 @@ def run(key, props_override, budget):
                                      "cmd": "git -C /repo apply seeded/%s/patch.diff; bin/flytmc check %s --tier quick; git -C /repo checkout -- ." % (mid, p)}
                 print("%-10s %s exit=%d viol=%d %s" % (mid, p, rc, len(viol), (prob[0][:140] if prob else o.strip().splitlines()[-1][:140] if o.strip() else "")), flush=True)
         finally:
-            sh("git checkout -- . && git clean -fdq -- '*.go'", cwd="/repo")
+            sh("git reset -q --hard HEAD && git clean -fdq -- '*.go'", cwd="/repo")
         meta["detected"] = any(c["exit"] == 1 and c["violation_lines"] > 0 for c in meta["checks"].values())
         json.dump(meta, open(d + "meta.json", "w"), indent=1)
 
